@@ -500,6 +500,32 @@ Definition S_clip (cols : list column) (lo hi : bound_cols) : res (list column) 
 Definition stack_cols (s : bound_stack) : bound_cols := option_map (@concat (list A)) s.
 End Clip.
 
+(* =====================================================================================================
+   12. Binary operator with a 1-D array applied along the rows (type_blocks.py: _block_shape_slices 2320-2327,
+       _ufunc_binary_operator 2372-2376): `other[s] for s in self._block_shape_slices()` -- the array is chopped
+       to the width of every block, column k of a block meets element k of its chop
+   ===================================================================================================== *)
+Section BinopRow.
+Context {B : Type}.
+Variable opc : A -> B -> A.            (* the operator on one cell *)
+Variable fd : dtype -> dtype.          (* result dtype of a block of a dtype *)
+
+Definition binop_block (b : block) (part : list B) : block :=
+  mk_block (fd (b_dtype b)) (b_1d b) (map (fun co => map (fun x => opc x (snd co)) (fst co)) (combine (b_cols b) part)).
+Fixpoint binop_row_go (t : tb) (start : nat) (other : list B) : tb :=
+  match t with
+  | [] => []
+  | b :: r => let stop := (start + length (b_cols b))%nat in       (* slice(start, end) *)
+              binop_block b (firstn (stop - start) (skipn start other)) :: binop_row_go r stop other
+  end.
+Definition M_binop_row (t : tb) (other : list B) : res tb :=
+  if negb (Z.of_nat (length other) =? tb_column_count t) then Err "NotImplementedError"
+  else from_blocks_gen (binop_row_go t 0 other).
+Definition S_binop_row (cols : list column) (other : list B) : res (list column) :=
+  if negb (Nat.eqb (length other) (length cols)) then Err "NotImplementedError"
+  else Ok (map (fun co => (fd (fst (fst co)), map (fun x => opc x (snd co)) (snd (fst co)))) (combine cols other)).
+End BinopRow.
+
 End Ops.
 
 Arguments frame : clear implicits.
